@@ -29,6 +29,8 @@ func main() {
 	switch *prop {
 	case "C15":
 		runC15(r, *n, w)
+	case "C05":
+		runC05(r, *n, w)
 	case "C10":
 		runC10(r, *n, w)
 	case "C18":
